@@ -38,3 +38,26 @@ Definition run_search_shape (sk : list ev) : bool :=
   calls_eqb (seq_calls sk)
             [("seq_reset", 1); ("enumerate_lines", 0);
              ("sequence_search", 2); ("process_sequences", 0)]%nat.
+
+(* ---- end of file: the model's [seq_eof] is "apply the definition's
+   end-of-file action", the action being what the interpreter of the
+   extracted tree of _process_sequence_results must produce *)
+From Coq Require Import ZArith.
+From SK Require Import Model.Sequence Model.SequenceSk.
+
+Lemma filter_none {A} (l : list A) : filter (fun _ => true) l = l.
+Proof.
+  induction l as [|x l IH]; simpl; [reflexivity | rewrite IH; reflexivity].
+Qed.
+
+Lemma seq_eof_is_action sh k acc ln :
+  seq_eof sh (k, acc) ln = apply_eof (eof_action sh k) acc ln.
+Proof.
+  unfold seq_eof, apply_eof, eof_action. simpl.
+  destruct (started k && has_end sh).
+  - destruct (end_empty sh) as [v|]; simpl.
+    + unfold apply_ops. simpl. symmetry. apply filter_none.
+    + unfold apply_ops. simpl. apply filter_ext. intros p.
+      unfold keep_other. rewrite orb_false_r. reflexivity.
+  - simpl. unfold apply_ops. simpl. symmetry. apply filter_none.
+Qed.
